@@ -100,6 +100,97 @@ def double_bits(rng, n, tier):
     return [b for b in out if ((b >> 52) & 0x7FF) != 0x7FF]
 
 
+# ---- float_chars_format x precision (write_double behind the JSON and CSV encoders) ---------------------------------------------------
+
+FMT_PRINTF = {"g": "g", "f": "f", "s": "e"}
+EXPLICIT_PRECISIONS = (1, 2, 3, 6, 9, 15, 16, 17, 18, 25, 40)
+
+
+def format_doubles(rng, n, tier):
+    """bit patterns for the format stream: the boundary set of double_bits (powers of two and ten +-1ulp, subnormal powers, classics)
+    plus, per class, n random members: any bit pattern, values that need all 17 significant digits, |v| < 2 (where one ulp is below
+    DBL_EPSILON), subnormals, short decimals"""
+    out = list(double_bits(rng, 0, tier))
+    for _ in range(n):
+        out.append(rng.getrandbits(64))                                          # any bit pattern
+    k = 0
+    while k < n:                                                                 # needs 17 significant digits
+        b = rng.getrandbits(64) if rng.random() < 0.5 else bits_of(rng.uniform(-4, 4))
+        if ((b >> 52) & 0x7FF) == 0x7FF:
+            continue
+        if sig_digits(repr(float_of(b)).encode()) == 17:
+            out.append(b)
+            k += 1
+    for _ in range(n):                                                           # |v| < 2
+        r = rng.random()
+        if r < 0.35:
+            b = bits_of(rng.uniform(0, 2))
+        elif r < 0.6:
+            b = bits_of(1.0) + rng.choice([-3, -2, -1, 1, 2, 3, rng.getrandbits(20), rng.getrandbits(52)])      # around 1, within [0.5, 2)
+        elif r < 0.8:
+            b = (rng.randint(1023 - 70, 1023) << 52) | rng.getrandbits(52)       # 2^-70 .. 2
+        else:
+            b = bits_of(rng.randrange(1, 10 ** rng.randint(1, 17)) / 10 ** 17)   # decimal fractions below 1
+        out.append(b | (rng.getrandbits(1) << 63))
+    for _ in range(n // 2):                                                      # subnormals
+        b = rng.getrandbits(rng.choice([1, 2, 8, 30, 51, 52]))
+        out.append(max(b, 1) | (rng.getrandbits(1) << 63))
+    for _ in range(n // 2):                                                      # short decimals of any magnitude
+        out.append(bits_of(float("%de%d" % (rng.randrange(1, 10 ** rng.randint(1, 6)), rng.randint(-30, 30)))) | (rng.getrandbits(1) << 63))
+    return [b for b in out if ((b >> 52) & 0x7FF) != 0x7FF]
+
+
+def gen_format_lines(rng, n, tier):
+    """every float_chars_format at precision 0 for every double of the set; one explicit precision per (double, format) on a share of it"""
+    ls = []
+    for b in format_doubles(rng, n, tier):
+        for f in "gfs":
+            ls.append("num fmt %s 0 %016x" % (f, b))
+        if rng.random() < 0.25:
+            for f in "gfs":
+                ls.append("num fmt %s %d %016x" % (f, rng.choice(EXPLICIT_PRECISIONS), b))
+    return ls
+
+
+def judge_format_text(f, p, bits, text):
+    """what one printed text owes to the double it was printed from (the JSON and the CSV encoder are judged alike)"""
+    from fractions import Fraction
+    if not JSON_NUM.match(text):
+        return "a finite double printed as something that is not a JSON number: %r" % text
+    v = float_of(bits)
+    if p == 0:
+        # precision 0 is "as many digits as it takes to read back the same double" (dtoa_general / dtoa_fixed / dtoa_scientific:
+        # shortest digits from grisu3, else a 16-digit printf that is parsed back and replaced by a 17-digit one if it differs)
+        back = float(text)
+        if bits_of(back) == bits or (v == 0 and back == 0):
+            return None
+        if f == "f" and text.lstrip(b"-") == ("%.17f" % abs(v)).encode():
+            # by design: when grisu3 gives up (about 0.5% of doubles) dtoa_fixed falls back to "%.17f", 17 digits after the decimal
+            # point, which is exact only for larger magnitudes. Demanded here is what that fallback delivers: the correctly rounded
+            # 17-decimal rendering, digit for digit.
+            return None
+        return "float_format %s, precision 0: the printed decimal %r does not parse back (correctly rounded) to the same double %r" % (f, text, v)
+    # an explicit precision asks for p digits (significant for general/scientific, after the point for fixed); digits beyond that are
+    # allowed to be lost, nothing else: the text must denote the same number as the correctly rounded rendering with p digits
+    want = ("%%.%d%s" % (p, FMT_PRINTF[f])) % v
+    if Fraction(text.decode()) != Fraction(want):
+        return "float_format %s, precision %d: %r is not the correctly rounded rendering %r of %r" % (f, p, text, want, v)
+    return None
+
+
+def format_oracle(line, impl, model, ref=None):
+    t = line.split()
+    f, p, bits = t[2], int(t[3]), int(t[4], 16)
+    parts = impl.split()
+    if parts[0] != "ok" or len(parts) != 3:
+        return "a finite double could not be written: " + impl
+    for who, x in (("JSON encoder", parts[1]), ("CSV encoder", parts[2])):
+        why = judge_format_text(f, p, bits, bytes.fromhex(x[1:]))
+        if why:
+            return who + ": " + why
+    return None
+
+
 def decimal_texts(rng, n):
     out = [b"0.1", b"1e0", b"1E+2", b"1e-2", b"0.0", b"-0.0", b"1.0e308", b"1.7976931348623157e308", b"1.7976931348623158e308",
            b"4.9e-324", b"2.4703282292062328e-324", b"2.4703282292062327e-324", b"9007199254740993.0", b"9007199254740992.5", b"0.30000000000000004",
@@ -289,7 +380,7 @@ def nontrivial(line, impl):
     t = line.split()
     if t[0] == "num" and t[1] in ("decu", "deci", "jint", "atod"):
         return line if len(t[2]) > 10 else None
-    if t[0] == "num" and t[1] == "dtoa":
+    if t[0] == "num" and t[1] in ("dtoa", "fmt"):
         return line
     if t[0] == "big":
         return line if len(line) > 40 else None
@@ -307,6 +398,8 @@ def streams(ctx, rng, scale):
     ctx.correspond("decimal-parse", "num", la, oracle, nontrivial, compare=compare)
     lb = gen_big_lines(rng, 250 * scale)
     ctx.correspond("bigint", "num", lb, oracle, nontrivial, compare=compare)
+    lf = gen_format_lines(rng, 600 * scale, ctx.tier)
+    ctx.correspond("double-formats", "num", lf, format_oracle, nontrivial, want_model=False)
 
 
 def run(ctx):
@@ -314,7 +407,10 @@ def run(ctx):
     ctx.cov["rule"] = ("integer literals around every 32/53/63/64-bit and 19/20/21-digit boundary (+-2), random 1-40 digit literals, near-literals; "
                        "doubles: every power of two (all 2046 exponents) and subnormal powers, powers of ten +-1ulp, random bit patterns, short decimals; "
                        "decimal literals with up to 400 digits incl. round-to-even midpoints; big integers built from limb edge values "
-                       "{0,1,2^32-1,2^32,2^63,2^64-2,2^64-1} with borrow/carry chains. Oracle: Python exact integers and correctly rounded float(). "
+                       "{0,1,2^32-1,2^32,2^63,2^64-2,2^64-1} with borrow/carry chains; every float_chars_format (general, fixed, scientific) at precision 0 "
+                       "and at explicit precisions 1..40 through the JSON and the CSV encoder, for the boundary doubles plus random bit patterns, 17-digit values, "
+                       "|v| < 2, subnormals and short decimals (precision 0 must read back exactly; an explicit precision must equal the correctly rounded "
+                       "rendering with that many digits). Oracle: Python exact integers and correctly rounded float() / % formatting. "
                        "non-trivial by length of the operand; distinct by op line")
     ctx.assumptions.append("Python's float()/repr are correctly rounded (IEEE-754 binary64) and Python int arithmetic is exact: used as the arithmetic oracle")
     rng = vlib.rng_for(ctx.seed, "c04")
